@@ -35,7 +35,7 @@ static void TProbe_Del(var self) { struct TProbe* p = self;
   p->canary = 0; atomic_fetch_sub(&tprobe_live, 1); }
 var TProbe = Cello(TProbe, Instance(New, TProbe_New, TProbe_Del));
 
-struct Res { uint64_t digest; long cs_in[64], cs_out[64]; int ncs; long tryfail; long ended; int exc_seen; int64_t cell; };
+struct Res { uint64_t digest; long cs_in[64], cs_out[64]; int ncs; long tryfail; long ended; int exc_seen; int64_t cell; var own[2]; long withbad; };
 static struct Res res_thr[MAXT], res_alone[MAXT];
 static var the_mutex;
 static int64_t cells[MAXT];               /* written by thread i, read by main after join */
@@ -44,6 +44,16 @@ static uint64_t mix(uint64_t h, uint64_t x) { h ^= x + 0x9E3779B97F4A7C15ULL + (
 static uint64_t rnd(uint64_t* s) { *s ^= *s << 13; *s ^= *s >> 7; *s ^= *s << 17; return *s; }
 
 static void crit(struct Res* r, int how) {
+  if (how == 3) {
+    /* the lock is named by an expression whose value is different when the block ends (a table of locks indexed by a stage that
+       the body advances): the Mutex that was ACQUIRED is the one released. Both locks are this thread's own, so the outcome can
+       be probed without waiting: the first is free again afterwards, the second was never touched */
+    var locks[2] = { r->own[0], r->own[1] }; volatile int stage = 0;
+    with (m in locks[stage]) { if (trylock(r->own[0])) { r->withbad++; unlock(r->own[0]); } stage = 1; }
+    if (!trylock(r->own[0])) r->withbad++; else unlock(r->own[0]);
+    if (!trylock(r->own[1])) r->withbad++; else unlock(r->own[1]);
+    how = 2;
+  }
   if (how == 0) lock(the_mutex);
   else if (how == 1) { while (!trylock(the_mutex)) { r->tryfail++; sched_yield(); } }
   if (how == 2) {
@@ -101,7 +111,7 @@ static void __attribute__((noinline)) work(uint64_t seed, int rounds, struct Res
     h = mix(h, (uint64_t)((struct TProbe*)get(current(Thread), $S("verif-a")))->val);
     h = mix(h, len(get(current(Thread), $S("verif-b"))));
     rem(current(Thread), $S("verif-b"));
-    if (with_mutex) { crit(r, round % 3); cells[idx] = (int64_t)h; }
+    if (with_mutex) { crit(r, round % 4); cells[idx] = (int64_t)h; }
     if (round % 4 == 1) sched_yield();
   }
   r->digest = h; r->cell = (int64_t)h;
@@ -146,6 +156,7 @@ int main(int argc, char** argv) {
       int k = (int)hc_int(1); uint64_t seed = (uint64_t)hc_int(2); int rounds = (int)hc_int(3);
       if (k > MAXT) k = MAXT;
       memset(res_thr, 0, sizeof res_thr); memset(res_alone, 0, sizeof res_alone);
+      { static var own_locks[MAXT][2]; for (int i = 0; i < MAXT; i++) for (int q = 0; q < 2; q++) { if (!own_locks[i][q]) own_locks[i][q] = new_root(Mutex); res_thr[i].own[q] = own_locks[i][q]; } }
       for (int i = 0; i < k; i++) work(seed + (uint64_t)i, rounds, &res_alone[i], 0, i);        /* each workload alone, in main */
       for (int i = 0; i < MAXT; i++) { atomic_store(&live_by[i], 0); atomic_store(&fn_done[i], 0); }
       atomic_store(&ticket, 0); atomic_store(&order_ticket, 0); shared_plain = 0; atomic_store(&foreign_retire, 0);
@@ -181,7 +192,7 @@ int main(int argc, char** argv) {
       for (int i = 0; i < k; i++) {
         ev_begin("thread"); ev_int("t", i); ev_limbs("digest", res_thr[i].digest); ev_limbs("alone", res_alone[i].digest);
         ev_int("ended", res_thr[i].ended); ev_int("joined", joined[i]); ev_limbs("cell", (uint64_t)res_thr[i].cell); ev_limbs("seen", (uint64_t)seen[i]);
-        ev_int("liveatjoin", liveatjoin[i]); ev_int("handoff", atomic_load(&handoff_ok[i])); ev_int("ncs", res_thr[i].ncs); ev_ints("tin", (long long*)res_thr[i].cs_in, 0); ev_end();
+        ev_int("liveatjoin", liveatjoin[i]); ev_int("handoff", atomic_load(&handoff_ok[i])); ev_int("ncs", res_thr[i].ncs); ev_int("withbad", res_thr[i].withbad); ev_ints("tin", (long long*)res_thr[i].cs_in, 0); ev_end();
         for (int c = 0; c < res_thr[i].ncs; c++) { ev_begin("cs"); ev_int("t", i); ev_int("tin", res_thr[i].cs_in[c]); ev_int("tout", res_thr[i].cs_out[c]); ev_end(); total_cs++; }
       }
       ev_begin("summary"); ev_int("k", k); ev_int("plain", shared_plain); ev_int("sections", total_cs); ev_int("foreign", atomic_load(&foreign_retire));
